@@ -377,7 +377,7 @@ class C05(Check):
         for prio in ([0, 1, 3, 6] if ctx.quick else range(7)):
             specs.append(("designed/presolve-priority-%d-threshold" % prio, K.priority_presolve_spec(prio, "threshold"), [0]))
             specs.append(("designed/presolve-priority-%d-two-levels" % prio, K.priority_presolve_spec(prio, "two-levels"), [0, 1]))
-        n = 14 if ctx.quick else 220
+        n = 10 if ctx.quick else 220
         for i in range(n):
             force = {}
             if i % 3 == 0:
